@@ -142,7 +142,9 @@ func round3(f float64) float64 { return float64(int(f*1000)) / 1000 }
 func findKnown(known []KnownFinding, prop, obl string) *KnownFinding {
 	for i := range known {
 		k := &known[i]
-		if k.Status == "known" && k.Property == prop && k.Obligation == obl {
+		// a known finding is identified by its obligation; the same obligation may
+		// belong to several properties (it is reported under each)
+		if k.Status == "known" && k.Obligation == obl {
 			return k
 		}
 	}
@@ -261,7 +263,7 @@ func checkCmd(opts *RunOpts, args []string) int {
 			}
 		}
 		if len(again) > 0 {
-			run.retry(again, 3*opts.TimeoutS)
+			run.retry(again, 2*opts.TimeoutS)
 		}
 	}
 	if err != nil {
@@ -388,6 +390,17 @@ func checkCmd(opts *RunOpts, args []string) int {
 		}
 	}
 	_ = unsatCore
+	// bounded stand-ins: a violation found there is a concrete failing history on the real code
+	for _, b := range run.Bounded {
+		if b.Violation != "" {
+			dir := filepath.Join(opts.Verif, "replays", prop)
+			os.MkdirAll(dir, 0o755)
+			rp := filepath.Join(dir, sanitize("bounded."+b.Schema+"."+b.Group)+".replay.txt")
+			os.WriteFile(rp, []byte(fmt.Sprintf("property: %s\nobligation: bounded.%s.group_%s.exclusive\nkind: bounded reachability on the real resolver (single-state Add/Remove from the empty machine)\nfailing-history: %s\n", prop, b.Schema, b.Group, b.Violation)), 0o644)
+			violations = append(violations, fmt.Sprintf("VIOLATION property=%s replay=%s obligation=bounded.%s.group_%s.exclusive two members of an exclusive group active: %s", prop, rp, b.Schema, b.Group, b.Violation))
+		}
+	}
+	notes = append(notes, run.ExtraNotes...)
 	for _, l := range knownLines {
 		fmt.Println(l)
 	}
@@ -425,6 +438,11 @@ func checkCmd(opts *RunOpts, args []string) int {
 		"abstractions":              uniqNotes,
 		"samples":                   samples,
 		"timing":                    map[string]any{"load_s": round3(run.LoadS), "vcgen_s": round3(run.GenS), "solve_s": round3(run.SolveS)},
+	}
+	if len(run.Bounded) > 0 || run.SchemaCount > 0 {
+		cov["schemas_extracted"] = run.SchemaCount
+		cov["bounded_obligations"] = run.Bounded
+		cov["bounded_note"] = "bounded obligations are exhaustive reachability runs on the real resolver up to the stated number of active sets; they are never counted in discharged"
 	}
 	ev := &Evidence{PropertyID: prop, Tier: opts.Tier, Seed: seed, Level: level, Coverage: cov, Assumptions: as,
 		WallS: round3(time.Since(t0).Seconds()), Violations: len(violations)}
